@@ -424,11 +424,37 @@ def rule_relex_window(prog):
     # window
     tc = [call for call in hir.nodes(b["body"], "Call") if (hir.callee_display(call) or "") == "tokens::TokenChange::new"]
     conc = [m for m in hir.nodes(b["body"], "MethodCall") if m["m"] == "concat"]
-    if len(tc) != 1 or len(conc) != 1:
+    if len(tc) != 1:
         out.missing("TokenChange::new / concat in lexer::update")
         return out
-    order = [place(x) for x in hir.strip_ref(conc[0]["recv"]).get("es", [])]
-    order = [o or "?" for o in order]
+    order = None
+    order_site = b
+    if len(conc) == 1:
+        order = [place(x) for x in hir.strip_ref(conc[0]["recv"]).get("es", [])]
+        order_site = conc[0]
+    else:
+        # accumulated form: `let mut all = head; all.extend(new); all.extend(tail); all.push(eof);` at statement level of the function
+        blk_ = hir.strip(b["body"])
+        stmts_ = (blk_["b"]["stmts"] + ([blk_["b"]["expr"]] if blk_["b"].get("expr") else [])) if blk_.get("k") == "BlockExpr" else []
+        acc = None
+        for st_ in stmts_:
+            if st_.get("k") == "Let" and st_["pat"].get("k") == "Binding" and "Mut" in st_["pat"]["mode"] and st_.get("init") is not None \
+                    and "Vec<tokens::Token>" in c.tstr(st_["pat"]["bt"]).replace("spl_frontend::", "") and place(hir.strip(st_["init"])):
+                nm_ = "%s#%s" % (st_["pat"]["name"], st_["pat"]["id"])
+                later = []
+                for s2 in stmts_[stmts_.index(st_) + 1:]:
+                    in_ = hir.stmt_inner(s2)
+                    if in_ is not None and in_.get("k") == "MethodCall" and in_["m"] in ("extend", "push", "append") and place(in_["recv"]) == nm_ and in_["args"]:
+                        later.append(place(hir.strip_ref(in_["args"][0])))
+                if len(later) >= 2:
+                    acc = [place(hir.strip(st_["init"]))] + later
+                    order_site = st_
+        order = acc
+    if order is None:
+        for lbl_ in ("window start = number of untouched head tokens", "window end = old length minus reused tail",
+                     "insertion length = number of freshly lexed tokens", "result = head ++ new ++ tail ++ [eof]"):
+            out.add("lexer::update", lbl_, None, c.loc(tc[0]["sp"]), "the way the result vector is assembled is not recognised")
+    order = [o or "?" for o in (order or [])]
 
     def lens_in(e, depth=0):
         res = set()
@@ -450,10 +476,11 @@ def rule_relex_window(prog):
     end_l = lens_in(f.get("end", {})) if f else set()
     ins_l = lens_in(tc[0]["args"][1])
     head, new, tail = (order + ["?", "?", "?"])[:3]
-    out.add("lexer::update", "window start = number of untouched head tokens", start_l == {head}, c.loc(tc[0]["sp"]), "start from len of %s, head is %s" % (start_l, head))
-    out.add("lexer::update", "window end = old length minus reused tail", tail in end_l and len(end_l) == 2, c.loc(tc[0]["sp"]), "end from len of %s, tail is %s" % (end_l, tail))
-    out.add("lexer::update", "insertion length = number of freshly lexed tokens", ins_l == {new}, c.loc(tc[0]["sp"]), "from len of %s, new is %s" % (ins_l, new))
-    out.add("lexer::update", "result = head ++ new ++ tail ++ [eof]", len(order) == 4 and "?" not in order[:3], c.loc(conc[0]["sp"]), "%s" % order)
+    if order:
+        out.add("lexer::update", "window start = number of untouched head tokens", start_l == {head}, c.loc(tc[0]["sp"]), "start from len of %s, head is %s" % (start_l, head))
+        out.add("lexer::update", "window end = old length minus reused tail", tail in end_l and len(end_l) == 2, c.loc(tc[0]["sp"]), "end from len of %s, tail is %s" % (end_l, tail))
+        out.add("lexer::update", "insertion length = number of freshly lexed tokens", ins_l == {new}, c.loc(tc[0]["sp"]), "from len of %s, new is %s" % (ins_l, new))
+        out.add("lexer::update", "result = head ++ new ++ tail ++ [eof]", len(order) == 4 and "?" not in order[:3], c.loc(order_site["sp"]), "%s" % order)
     # batch lexer and incremental lexer skip the same thing between tokens, and the batch lexer sees the text as given
     lx = prog.body("spl_frontend::lexer::lex")
     if lx is None:
@@ -462,8 +489,8 @@ def rule_relex_window(prog):
 
     def skippers(body):
         res = set()
-        for call in hir.nodes(body["body"], "Call"):
-            if (hir.callee(call) or "").endswith("nom::sequence::preceded") and len(call["args"]) == 2:
+        for call in hir.nodes_deep(prog, body["body"], 1, crate=c):
+            if call.get("k") == "Call" and (hir.callee(call) or "").endswith("nom::sequence::preceded") and len(call["args"]) == 2:
                 d0, d1 = hir.path_def(call["args"][0]), hir.path_def(call["args"][1])
                 if d1 and (d1.get("rp") or d1["p"]).endswith("::lex"):
                     res.add((d0.get("rp") or d0["p"]) if d0 else "?")
@@ -740,7 +767,8 @@ def rule_strip_rebuild(prog):
     for n in hir.nodes_deep(prog, b["body"], 2, crate=c):
         if n.get("k") in ("Call", "MethodCall"):
             hb = hir.local_callee_body(prog, n)
-            if hb is not None and hb["_crate"] is c and hb not in parts and "AnalyzedSource" in hb["d"]:
+            if hb is not None and hb["_crate"] is c and hb not in parts and hb["p"] not in strip_ps and hb["p"] not in append_ps and (
+                    "AnalyzedSource" in hb["d"] or c.file_of(hb["sp"]) == c.file_of(b["sp"])):
                 parts.append(hb)
     appends = [(pb, n) for pb in parts for n in hir.nodes(pb["body"]) if is_call(n, append_ps)]
     strips = [(pb, n, parents) for pb in parts for n, parents in hir.walk(pb["body"]) if is_call(n, strip_ps)]
